@@ -2300,12 +2300,28 @@ class WBEMConnection:  # pylint: disable=too-many-instance-attributes
 
         # #  Original code return tup_tree
 
+        def typed_value(value, type_):
+            """
+            Convert the CIM-XML string value(s) of a RETURNVALUE or PARAMVALUE
+            element into CIM data type objects.
+            """
+            if type_ == 'boolean':
+                # cimvalue() uses Python truth testing, which would turn the
+                # CIM-XML string 'FALSE' into True.
+                if isinstance(value, list):
+                    return [v if v is None else tp.unpack_boolean(v)
+                            for v in value]
+                if isinstance(value, str):
+                    return tp.unpack_boolean(value)
+            return cimvalue(value, type_)
+
         # Convert optional RETURNVALUE into a Python object
         returnvalue = None
 
         if tup_tree and tup_tree[0][0] == 'RETURNVALUE':
 
-            returnvalue = cimvalue(tup_tree[0][2], tup_tree[0][1]['PARAMTYPE'])
+            returnvalue = typed_value(tup_tree[0][2],
+                                      tup_tree[0][1]['PARAMTYPE'])
             tup_tree = tup_tree[1:]
 
         # Convert zero or more PARAMVALUE elements into dictionary
@@ -2316,7 +2332,7 @@ class WBEMConnection:  # pylint: disable=too-many-instance-attributes
             if p[1] == 'reference':
                 output_params[p[0]] = p[2]
             else:
-                output_params[p[0]] = cimvalue(p[2], p[1])
+                output_params[p[0]] = typed_value(p[2], p[1])
 
         return (returnvalue, output_params)
 
